@@ -132,7 +132,10 @@ def schedule(I, system=False, user_chains=0, overwrite=False, composite=False):
     num_samples, num_chains, burn_in, steps = I["num_samples"], I["num_chains"], I["burn_in"], I["steps"]
     st = _rec_state()
     o1, o2 = _observables()
-    if composite:
+    if composite == "offset":
+        # a composite whose mean dwarfs its spread (non-dyadic values): the reported variance must still be the variance
+        o1 = o1 * (1.0 / 3.0) + 1.0e6
+    elif composite:
         o1 = 3 - 2 * o1
     kw = dict(num_chains=num_chains, burn_in=burn_in, steps=steps)
     init = None
@@ -199,6 +202,8 @@ def specs(tier):
     S.append(dict(name="schedule-observable", module="checks.c13", function="schedule", kwargs={}, inputs=sin))
     S.append(dict(name="schedule-system", module="checks.c13", function="schedule", kwargs=dict(system=True), inputs=sin))
     S.append(dict(name="schedule-composite", module="checks.c13", function="schedule", kwargs=dict(composite=True), inputs=dict(sin, burn_in=("int", 1, 1), steps=("int", 0, 1))))
+    S.append(dict(name="schedule-composite-large-offset", module="checks.c13", function="schedule", kwargs=dict(composite="offset"), inputs=dict(sin, burn_in=("int", 1, 1), steps=("int", 1, 1))))
+    S.append(dict(name="schedule-system-large-offset", module="checks.c13", function="schedule", kwargs=dict(composite="offset", system=True), inputs=dict(sin, num_chains=("int", 0, 3), burn_in=("int", 0, 0), steps=("int", 1, 1))))
     for uc in (1, 2, 3):
         for ow in (False, True):
             S.append(dict(name="schedule-user-chains-%d-%s" % (uc, "overwrite" if ow else "keep"), module="checks.c13", function="schedule",
